@@ -521,7 +521,7 @@ _run_clauses = run
 def run(prog, rep):
     _run_clauses(prog, rep)
     from plint.wiring import check_zero_init
-    check_zero_init(rep, "C02.3", prog, ['prwlock-general.c', 'prwlock-posix.c'], 2)
+    check_zero_init(rep, "C02.3", prog, ['prwlock-general.c', 'prwlock-posix.c'], 1)
 
 # generic robustness battery: renaming every local/parameter in these files must not change any verdict
 RENAME_LOCALS = ['src/prwlock-posix.c', 'src/prwlock-general.c']
